@@ -187,8 +187,11 @@ def summarize(prop, tier, seed, level, groups, results, snap, runner, t0, meta):
         print("KNOWN-FINDING: property=%s %s [group=%s obligation=%s]" % (prop, re.sub(r"^finding:\s*property=\S+\s*", "", f["text"]), g.gid, p.pid))
     vcount = 0
     vlist = []
-    for r, p in violations[:12]:
-        path, reproduced = make_replay(runner, snap, prop, r, p)
+    MAXREP = 6
+    import concurrent.futures as _cf
+    with _cf.ThreadPoolExecutor(max_workers=MAXREP) as ex:
+        reps = list(ex.map(lambda rp: make_replay(runner, snap, prop, rp[0], rp[1]), violations[:MAXREP]))
+    for (r, p), (path, reproduced) in zip(violations[:MAXREP], reps):
         vcount += 1
         line = "VIOLATION property=%s replay=%s" % (prop, path)
         print("  refuted obligation %s in group %s: %s (%s:%s)" % (p.pid, r.group.gid, p.desc, os.path.basename(p.file), p.line))
@@ -196,8 +199,8 @@ def summarize(prop, tier, seed, level, groups, results, snap, runner, t0, meta):
             line += " no-failing-input-found"
         print(line, flush=True)
         vlist.append({"group": r.group.gid, "obligation": p.pid, "replay": path, "reproduced_natively": reproduced})
-    if len(violations) > 12:
-        print("  (%d further refuted obligations not replayed)" % (len(violations) - 12))
+    if len(violations) > MAXREP:
+        print("  (%d further refuted obligations not replayed: %s)" % (len(violations) - MAXREP, ", ".join("%s/%s" % (r.group.gid, p.pid) for r, p in violations[MAXREP:MAXREP + 10])))
         vcount = len(violations)
     for e in errors[:20]:
         print("CHECK-ERROR: " + e[:600])
